@@ -864,6 +864,19 @@ func (c *Ctx) checkReaderErrors() {
 			if !ok || core.ErrResultIndex(call.Call.Signature()) < 0 {
 				continue
 			}
+			// a callee that cannot fail (a typed-node accessor whose every return carries the nil error) owes nothing
+			if h := call.Call.StaticCallee(); h != nil && len(h.Blocks) > 0 {
+				hi := core.ErrResultIndex(h.Signature)
+				never := hi >= 0
+				for _, ret := range core.Returns(h) {
+					if hi < 0 || hi >= len(ret.Results) || !core.IsNilConst(core.ResolvedResults(ret)[hi]) {
+						never = false
+					}
+				}
+				if never {
+					continue
+				}
+			}
 			name := core.CalleeName(call)
 			ord[name]++
 			n++
